@@ -105,8 +105,9 @@ impl Engine for CrashEngine {
     fn generate(&self, property: &str, seed: u64, tier: &str) -> Scenario {
         let mut c = Tape::fresh(mix(seed, 0xC0F6));
         let mut w = Tape::fresh(mix(seed, 0x3017));
-        let format = *c.pick(&[3u32, 3, 3, 3, 2, 1]);
-        let ttl = c.chance(40, 100) && format != 1;
+        let ttl_focus = property == "C11";
+        let format = if ttl_focus { *c.pick(&[3u32, 3, 2]) } else { *c.pick(&[3u32, 3, 3, 3, 2, 1]) };
+        let ttl = (ttl_focus || c.chance(40, 100)) && format != 1;
         let data_blocks = *c.pick(&[24u64, 32, 48, 96]);
         let n_clients = 1 + c.below(3) as usize;
         let n_keys = (n_clients + c.below(6) as usize).max(1);
@@ -182,6 +183,8 @@ impl Engine for CrashEngine {
         knobs.insert("nested_points".into(), if thorough { -1 } else { 3 });
         knobs.insert("reopen_again".into(), if property == "C04" { 2 } else { c.below(2) as i64 });
         knobs.insert("probe".into(), (property != "C04") as i64);
+        // let time pass between the crash and the restart (so that fresh TTLs have expired)
+        knobs.insert("downtime_ms".into(), if ttl_focus { *c.pick(&[0i64, 1_500, 2_500, 6_000, 4_000_000]) } else if ttl { *c.pick(&[0i64, 0, 2_500]) } else { 0 });
         Scenario {
             engine: "crash".into(),
             property: property.into(),
@@ -698,6 +701,12 @@ fn process_capture(sim: &Arc<Sim>, sc: &Scenario, run: &WorkloadRun, report: &mu
     for variant in &family {
         let image = run.capture.build(variant);
         let label = format!("crash@call{} {} unit{}", run.capture.at_call, variant.label, variant.unit);
+        if images_done == 0 {
+            let downtime = sc.knob("downtime_ms", 0);
+            if downtime > 0 {
+                sim.advance(Duration::from_millis(downtime as u64));
+            }
+        }
         let now0 = sim.now_wall();
         let rec = match recover(sim, sc, &mut env, image.clone(), None) {
             Err((rule, detail)) => {
@@ -730,6 +739,54 @@ fn process_capture(sim: &Arc<Sim>, sc: &Scenario, run: &WorkloadRun, report: &mu
         if let Err((rule, detail)) = check_recovered(run, &rec.contents, store_len, index_keys, sc.store.ttl, now1, &label) {
             report.fail(&rule, detail);
             break;
+        }
+        // independent cross-check: what a reader of the documented layout finds in the crash image
+        // (newest generation per key, journalled extents treated as unwritten) is what recovery
+        // must expose - and when that newest generation has expired, nothing at all (C11)
+        match codec::decode_image(&image, codec::DecodeOptions { allow_ambiguous: false, apply_journal: true }) {
+            Err(_) => report.count("crash_images_independent_reader_rejects", 1),
+            Ok(decoded) => {
+                report.count("crash_images_cross_checked", 1);
+                for (key, r) in &decoded.live {
+                    let expired_before = sc.store.ttl && r.expiry != 0 && now0 > r.expiry;
+                    let expired_after = sc.store.ttl && r.expiry != 0 && now1 > r.expiry;
+                    if expired_before != expired_after {
+                        continue;
+                    }
+                    match (rec.contents.get(key), expired_after) {
+                        (None, true) => report.count("probe.expired_newest_generation_hidden_by_recovery", 1),
+                        (Some(g), true) => {
+                            report.fail(
+                                "expired-newest-generation-shadowed",
+                                format!(
+                                    "[{label}] key {}: the newest generation on the device (ts={}, expiry={}) had expired at recovery time {now0}, yet the store exposes (ts={}, expiry={}, {}B)",
+                                    show(key), r.timestamp, r.expiry, g.ts, g.expiry, g.value.len()
+                                ),
+                            );
+                        }
+                        (Some(g), false) => {
+                            if g.ts != r.timestamp || g.expiry != r.expiry || g.value != r.value {
+                                report.fail(
+                                    "recovery-vs-independent-reader",
+                                    format!(
+                                        "[{label}] key {}: the device holds (ts={}, expiry={}, {}B) as newest generation but the store exposes (ts={}, expiry={}, {}B)",
+                                        show(key), r.timestamp, r.expiry, r.value.len(), g.ts, g.expiry, g.value.len()
+                                    ),
+                                );
+                            }
+                        }
+                        (None, false) => {
+                            report.fail(
+                                "recovery-vs-independent-reader",
+                                format!("[{label}] key {}: the device holds a live unexpired generation (ts={}, expiry={}) that the store does not expose", show(key), r.timestamp, r.expiry),
+                            );
+                        }
+                    }
+                }
+                if report.violation.is_some() {
+                    break;
+                }
+            }
         }
         report.states.push(mix(run.capture.at_call, rec.contents.len() as u64 ^ (images_done << 20)));
         // recovery's own writes must not touch a live record (C04c)
